@@ -152,6 +152,14 @@ def replay_case(arg):
                 post = coded_posterior(names, ids, store_as=pmap_)
                 ppm = chi.PosteriorPredictiveModel(pm, post, param_map=pmap_)
                 who = ids[int(rng.integers(3))]
+                # every other case the object has been used for ANOTHER individual first: what it draws for `who` afterwards
+                # are draws of `who`
+                used_before = (int(key, 16) // 11) % 2 == 0
+                other = [i_ for i_ in ids if i_ != who][0]
+                if used_before and kind == 'posterior':
+                    ppm.sample(times_in, n_samples=1, individual=other, seed=2)
+                    probes.clear(tag)
+                    cnt['object_used_for_another_individual_first'] = 1
                 if kind == 'posterior':
                     df = ppm.sample(times_in, n_samples=ns, individual=who, seed=int(rng.integers(100)),
                                     include_regimen=rec['regimen'])
@@ -181,6 +189,10 @@ def replay_case(arg):
                         w_in[...] = w_in[::-1].copy()              # the caller re-uses the buffer for something else
                     if via_pam:
                         pam.set_dosing_regimen(**REG)
+                    if used_before:
+                        pam.sample(times_in, n_samples=2, individual=other, seed=2)
+                        probes.clear(tag)
+                        cnt['object_used_for_another_individual_first'] = 1
                     refsim.clear_events()
                     df = pam.sample(times_in, n_samples=ns, individual=who, seed=int(rng.integers(100)),
                                     include_regimen=rec['regimen'])
